@@ -83,6 +83,25 @@ def run_case(case, acc, order):
             sr = float(s['sample_rate'])
             Cw = np.asarray(m.sparse_clusters.data).astype(np.float64)   # cluster waveforms (see C08)
             curated = not np.array_equal(st, sc)
+            if curated:
+                # the summaries below are those of the cluster waveforms: check these against C08's
+                # definition first (clusters with a unique dominant template; single-origin clusters)
+                from . import c08
+                pos_ = tr['channel_positions']
+                sh_ = tr['channel_shanks'] if tr['channel_shanks'] is not None else np.zeros(nc)
+                for c, (D, expw) in c08.reference_cluster_waveforms(
+                        T, st, sc, pos_, sh_, m.n_closest_channels).items():
+                    acc.step(True, 'cluster_waveforms')
+                    if c < Cw.shape[0] and not np.allclose(Cw[c][:, D], expw, rtol=1e-5, atol=1e-6):
+                        bad.append(('cluster_waveforms', 'definition',
+                                    {'cluster': int(c), 'channels': D, 'mean': describe(expw)},
+                                    describe(Cw[c][:, D])))
+                        break
+                for c in sorted(set(sc.tolist())):
+                    o = sorted(set(st[sc == c].tolist()))
+                    if len(o) == 1 and c < Cw.shape[0] and not np.array_equal(Cw[c], T[o[0]]):
+                        bad.append(('cluster_waveforms', 'single-origin', describe(T[o[0]]), describe(Cw[c])))
+                        break
             unused_top_t = max(st) + 1 < nt
             unused_top_c = max(sc) + 1 < Cw.shape[0]
 
@@ -237,6 +256,24 @@ def explore(ctx):
                                 # a channel that is not the largest carries a constant offset
                                 'dc_offset': [[0, 1, 40.0], [2, 0, 40.0], [3, 4, -40.0]] if (i // 4) % 2 else None}
                         cases.append({'spec': spec, 'factors': [1, 2.5], 'unused': unused, 'how': how})
+    # merged clusters whose templates differ in their channels: (a) a 14-channel probe, the dominant
+    # template is not the first contributor, peaks far apart; (b) templates that are exactly flat on
+    # some channels where the other contributor has signal
+    st_w = [0, 1, 2, 3, 3, 0, 3, 2]
+    prof = [[float(20 - abs(c - pk)) for c in range(14)] for pk in (6, 0, 12, 13)]
+    for wh in ('identity', 'mixing'):
+        cases.append({'spec': {'n_spikes': 8, 'n_templates': 4, 'n_channels': 14, 'geometry': 'col14',
+                               'spike_templates': st_w, 'spike_clusters': [4 if x in (2, 3) else x for x in st_w],
+                               'profile': prof, 'whitening': wh, 'features': 'sparse', 'tfeatures': 'absent',
+                               'raw': False, 'sample_rate': 30000.0, 'nsw': 5, 'fill': ctx.seed},
+                      'factors': [1, 2.5], 'unused': 'none', 'how': 'merge-wide'})
+        cases.append({'spec': {'n_spikes': 8, 'n_templates': 3, 'n_channels': 4, 'geometry': 'line',
+                               'spike_templates': [0, 1, 2, 0, 0, 1, 0, 2],
+                               'spike_clusters': [3, 3, 2, 3, 3, 3, 3, 2],
+                               'profile': [[3, 2, 0, 0], [0, 0, 2, 3], [1, 0, 3, 4]], 'whitening': wh,
+                               'features': 'sparse', 'tfeatures': 'absent', 'raw': False,
+                               'sample_rate': 30000.0, 'nsw': 5, 'fill': ctx.seed},
+                      'factors': [1], 'unused': 'none', 'how': 'merge-flat-channels'})
     # get_depths works in batches of 50 000 spikes: two datasets just beyond one and two batches
     for ns_big in ((50007, 100003) if ctx.thorough else (50007,)):
         spec = {'n_spikes': ns_big, 'n_templates': 4, 'n_channels': 5, 'geometry': 'grid',
